@@ -76,6 +76,9 @@ var paramTable = map[string]paramSpec{
 	"AUTH=mailbox":    {text: "AUTH=e+3Dmc2@example.com", mail: func(o *smtp.MailOptions) { a := "e=mc2@example.com"; o.Auth = &a }},
 	"AUTH=null":       {text: "AUTH=<>", mail: func(o *smtp.MailOptions) { a := ""; o.Auth = &a }},
 	"AUTH=badxtext":   {text: "AUTH=a+ZZ@x"},
+	"ENVID=rawequals": {text: "ENVID=QQ=314"},
+	"AUTH=rawequals":  {text: "AUTH=e=mc2@example.com"},
+	"ORCPT=rawequals": {text: "ORCPT=rfc822;e=mc2@x.test"},
 	"UNKNOWN=1":       {text: "FOO=1"},
 	"UNKNOWN":         {text: "FOO"},
 	"NOTIFY=NEVER":    {text: "NOTIFY=NEVER", rcpt: func(o *smtp.RcptOptions) { o.Notify = []smtp.DSNNotify{smtp.DSNNotifyNever} }},
